@@ -138,7 +138,18 @@ pub fn run_once<I: Item + ?Sized>(item: &I, prefix: &[u16], log: bool, track: bo
         w.track_states = track;
     });
     reset_drops();
-    item.run();
+    // Constructing the subject (with_capacity / from_iter / extend before the first poll) runs crate code outside any
+    // catch_unwind of the executor loop: a panic there is a verdict of the subject's home property, not an engine crash.
+    if let Err(p) = std::panic::catch_unwind(std::panic::AssertUnwindSafe(|| item.run())) {
+        let m = p.downcast_ref::<&str>().map(|s| s.to_string()).or_else(|| p.downcast_ref::<String>().cloned()).unwrap_or_else(|| "non-string panic payload".to_string());
+        WORLD.with(|w| {
+            if let Ok(mut w) = w.try_borrow_mut() {
+                let home = w.combs.first().map(|c| c.home).unwrap_or(1);
+                w.stack.clear();
+                w.violate(home, || format!("constructing or finishing the subject panicked outside the combinator's poll: {}", m));
+            }
+        });
+    }
     with(|w| ExecOut { rec_len: w.ch.rec.len(), outcome: w.outcome, steps: w.steps, diverged: w.ch.diverged, devs: w.ch.devs })
 }
 
